@@ -58,6 +58,8 @@ total_on_slices!(c14_deser_statement_idx, StatementIdx, 8);
 total_on_slices!(c14_deser_branch_target, BranchTarget, 8);
 total_on_slices!(c14_deser_var_id, VarId, 8);
 total_on_slices!(c14_deser_version_id, VersionId, 8);
+total_on_slices!(c14_deser_generic_arg, GenericArg, 8);
+total_on_slices!(c14_deser_user_type_id, UserTypeId, 8);
 total_on_slices!(c14_deser_vec_u64, Vec<u64>, 8);
 
 /// The capacity reserved before reading elements never exceeds the remaining input.
@@ -175,3 +177,6 @@ fn c18_rt_generic_arg_ids() {
     roundtrip(&GenericArg::UserFunc(FunctionId::new(kani::any())), 2);
     roundtrip(&GenericArg::Libfunc(ConcreteLibfuncId::new(kani::any())), 2);
 }
+
+// (GenericArg::Value round trip and the ConcreteTypeInfo deserialiser were attempted and dropped:
+// CBMC exceeds 12 GB on the BigInt arithmetic.)
